@@ -818,7 +818,8 @@ func (db *DB) buildListIdx(bucket string, r *Record) error {
 	case DataRPushFlag:
 		_, _ = db.ListIdx[bucket].RPush(string(r.E.Key), r.E.Value)
 	case DataLRemFlag:
-		countAndValueIndex := strings.Split(string(r.E.Value), SeparatorForListKey)
+		// the value itself may contain the separator: only the first one ends the count
+		countAndValueIndex := strings.SplitN(string(r.E.Value), SeparatorForListKey, 2)
 		count, _ := strconv2.StrToInt(countAndValueIndex[0])
 		value := []byte(countAndValueIndex[1])
 
